@@ -183,3 +183,31 @@ def st_conjunction(draw):
         f[c] = [want[c]]
     order = draw(st.permutations(store))
     return {"store": list(order), "filters": [f]}
+
+
+@st.composite
+def st_decoy_filters(draw, store):
+    """filters aimed at ONE stored event that satisfies a mixture of their conditions but no filter completely:
+    (a) ids/second-tag of the event + a tag value that merely extends / is extended by the event's value
+    (b) two filters, the event matching the kind of the first and the tag of the second"""
+    cands = [e for e in store if any(len(t) >= 2 and len(t[0]) == 1 and isinstance(t[1], str) for t in e["tags"])]
+    if not cands:
+        return [draw(st_filter(store))]
+    e = draw(st.sampled_from(cands))
+    tags = [t for t in e["tags"] if len(t) >= 2 and len(t[0]) == 1 and isinstance(t[1], str)]
+    t = draw(st.sampled_from(tags))
+    near = draw(st.sampled_from([t[1] + "x", t[1] + t[1] + "z", "z" + t[1], t[1] + "\x00"]))
+    kind_other = e["kind"] + 1 if e["kind"] < 65535 else 1
+    shape = draw(st.integers(0, 3))
+    if shape == 0:
+        return [{"ids": [e["id"]], "#" + t[0]: [near]}]
+    if shape == 1:
+        others = [u for u in tags if u[0] != t[0]]
+        if others:
+            u = draw(st.sampled_from(others))
+            return [{"#" + u[0]: [u[1]], "#" + t[0]: [near]}]
+        return [{"authors": [e["pubkey"]], "#" + t[0]: [near]}]
+    if shape == 2:
+        return [{"kinds": [e["kind"]], "#" + t[0]: [near]}, {"kinds": [kind_other], "#" + t[0]: [t[1]]}]
+    return [{"kinds": [e["kind"]], "authors": [e["pubkey"]], "#" + t[0]: [near, near + "y"]},
+            {"kinds": [kind_other, kind_other + 1], "#" + t[0]: [t[1]], "limit": 5}]
